@@ -47,8 +47,11 @@ def gen_cases(ctx, n_direct, n_run, start_id=0):
         n = rng.randint(0, 9)
         parts = gen_parts(rng, n, "tight")
         if kind == "processor":
-            # built-in wiring happens at ordered 2..8 / priority 2..16; user processors of every class are allowed
-            pass
+            # built-in wiring happens at ordered 2..8 / priority 2..16; user processors of every class are allowed;
+            # about half of them are instantiation-aware as well (their callbacks around instantiation are sequences
+            # of their own), the others are plain ComponentPostProcessors
+            for p in parts:
+                p["aware"] = rng.random() < 0.5
         cases.append({"id": cid, "kind": kind, "parts": parts})
         cid += 1
     return cases
@@ -117,6 +120,11 @@ CORPUS = [
     {"kind": "processor", "parts": [{"id": 0, "cls": "U", "ord": 0}, {"id": 1, "cls": "O", "ord": 3},
                                     {"id": 2, "cls": "P", "ord": 70}, {"id": 3, "cls": "O", "ord": -3},
                                     {"id": 4, "cls": "P", "ord": 17}]},
+    # instantiation-aware processors next to a plain one whose name sorts last ("processor9"): the callbacks around
+    # instantiation still reach every aware participant, in contract order
+    {"kind": "processor", "parts": [{"id": 1, "cls": "U", "ord": 0, "aware": True}, {"id": 2, "cls": "O", "ord": 3, "aware": True},
+                                    {"id": 3, "cls": "P", "ord": 70, "aware": True}, {"id": 4, "cls": "O", "ord": -3, "aware": True},
+                                    {"id": 9, "cls": "U", "ord": 0, "aware": False}]},
     {"kind": "loader", "parts": [{"id": 0, "cls": "U", "ord": 0}, {"id": 1, "cls": "O", "ord": 3},
                                  {"id": 2, "cls": "P", "ord": 7}, {"id": 3, "cls": "U", "ord": 0},
                                  {"id": 4, "cls": "P", "ord": -7}]},
